@@ -12,7 +12,7 @@ TNAME = ["signed char", "unsigned char", "short", "unsigned short", "int", "unsi
 MNAME = ["sum conservation (add/sub/inc/dec/add_return/sub_return)", "add_return(+1) results distinct", "xchg token conservation", "cmpxchg-loop increments", "and/or bit ownership"]
 RULE = ("Three campaigns. (E2, inputs) libFuzzer decodes bytes into (operand type in {signed,unsigned} x {1,2,4,8} bytes, one of 14 operations - set/read/load/store/xchg/cmpxchg/"
         "add_return/sub_return/add/sub/inc/dec/and/or -, an aligned position inside an 8-byte word surrounded by guard words, old value and operands from a sign/width boundary pool "
-        "or raw, operands passed with the operand type or as (unsigned) long, old value present in memory beforehand or written by a plain C assignment right before the call) and compares the returned value (sign-/zero-extended per type), the stored value truncated to the "
+        "or raw, operands passed with the operand type, as (unsigned) long, as unsigned int or as int, old value present in memory beforehand or written by a plain C assignment right before the call) and compares the returned value (sign-/zero-extended per type), the stored value truncated to the "
         "width and every neighbouring byte with a plain-C reference, for eight builds of the real macros: {x86 asm, compiler builtins} x {C, C++} x {clang, gcc}; in addition the full "
         "grid type x operation x position x passing style x (old, a, b) in the 14-value boundary pool is enumerated exhaustively. (E3a, schedules on real hardware) Hypothesis generates "
         "2-8 pinned threads, an iteration count and a packing of 1-6 operands of mixed widths into one 8-byte word, each hammered by all threads with one discipline: sum conservation "
